@@ -11,3 +11,5 @@ ASSUMPTIONS = [
     'A5 fewer than 2^30 simultaneous waiters on one mutex',
     'park/unpark contract (DESIGN.md 4.2): fiber_manager_wait_in_mpsc_queue returns only after a wake popped this fiber; fiber_manager_wake_from_mpsc_queue(…,1) pops and schedules exactly one waiter, waiting for an announced-but-not-yet-enqueued one — TRUSTED here, enforced on the real bodies under C01',
 ]
+# obligation groups of other properties' specifications that this property also rests on (its anchors name those files); see DESIGN.md 11.2
+IMPORTS = [dict(prop='C01', groups=['wait_in_mpsc', 'wake_from_mpsc', 'maintenance', 'maintenance_migrating_unlock']), dict(prop='C15', groups=['mpsc_push', 'mpsc_trypop'])]
